@@ -41,7 +41,7 @@ def selection(c, rng, mode, kind):
     if kind == "none" or n < 3:
         return {}, list(range(n)), "none"
     i0 = rng.randint(0, n - 2)
-    i1 = rng.randint(i0 + 1, n - 1)
+    i1 = rng.randint(i0 + 1, n - 1) if rng.random() < 0.85 else i0      # now and then a selection of a single element
     idx = list(range(i0, i1 + 1))
     if kind == "isel-gap":
         # an increasing index list with at least one adjacent pair and at least one gap (e.g. two bath stretches); n >= 4
